@@ -126,6 +126,7 @@ static void altcost(const cp_t* c, int alt, int* dp, int* dd, int* de) {
 // ---- failure bookkeeping --------------------------------------------------
 typedef struct { int verdict; char msg[300]; char raw[300]; long count; int len; uint8_t* choices; int confirmed; int p, d, e; uint64_t obs; uint8_t* sites; } failure_t;
 static failure_t fails[64];
+static failure_t first_inconclusive;
 static int nfails;
 static long total_failing;
 
@@ -262,6 +263,15 @@ static void run_pass(pass_t* ps) {
       ps->inconclusive++;
       ps->complete = 0;
       if (ps->inconclusive <= 3) fprintf(stderr, "fmc: inconclusive execution (%s: %s) prefix len %d\n", vname[v], tr->msg, pf.len);
+      if (!first_inconclusive.choices) {  // keep one for inspection (never counted as a failure)
+        first_inconclusive.verdict = v;
+        strncpy(first_inconclusive.msg, tr->msg, sizeof first_inconclusive.msg - 1);
+        first_inconclusive.len = tr->ncp;
+        first_inconclusive.choices = malloc(tr->ncp + 1);
+        for (uint32_t k = 0; k < tr->ncp; k++) first_inconclusive.choices[k] = tr->cp[k].chosen;
+        first_inconclusive.sites = malloc(NSITES);
+        memcpy(first_inconclusive.sites, SH->site_shared, NSITES);
+      }
     }
     // expand
     if (!stopping) {
@@ -486,6 +496,11 @@ int main(int argc, char** argv) {
     char path[600];
     snprintf(path, sizeof path, "%s/%s.%d.replay", outdir, name, i);
     write_replay(path, f, argc, argv);
+  }
+  if (first_inconclusive.choices) {
+    char path[600];
+    snprintf(path, sizeof path, "%s/%s.inconclusive.replay", outdir, name);
+    write_replay(path, &first_inconclusive, argc, argv);
   }
   stop_workers();
   double wall = now_s();
